@@ -76,18 +76,24 @@ func RunProperty(cfg Config) int {
 		fmt.Println("INCONCLUSIVE cannot read harness dir:", err)
 		return 2
 	}
-	l, err := load.Load(cfg.Repo, ov, nil)
-	if err != nil {
-		fmt.Println("INCONCLUSIVE /repo does not load:", err)
-		return 2
-	}
-	loadS := time.Since(t0).Seconds()
 	tmp, err := os.MkdirTemp("", "gosym-"+cfg.Prop+"-")
 	if err != nil {
 		fmt.Println("INCONCLUSIVE:", err)
 		return 2
 	}
 	defer os.RemoveAll(tmp)
+	genFile := filepath.Join(tmp, "zz_gen.go")
+	if err := load.Generate(cfg.Repo, genFile); err != nil {
+		fmt.Println("INCONCLUSIVE cannot generate doc/tag tables:", err)
+		return 2
+	}
+	ov[filepath.Join(cfg.Repo, "internal/zzverif/zz_gen.go")] = genFile
+	l, err := load.Load(cfg.Repo, ov, nil)
+	if err != nil {
+		fmt.Println("INCONCLUSIVE /repo does not load:", err)
+		return 2
+	}
+	loadS := time.Since(t0).Seconds()
 	os.MkdirAll(filepath.Join(tmp, "witness"), 0o755)
 	os.MkdirAll(filepath.Join(tmp, "cex"), 0o755)
 	r := &Run{Cfg: cfg, L: l, P: NewProgram(l, cfg.Tier), FuncsEnc: map[string]int{}, tmp: tmp}
@@ -484,13 +490,16 @@ func Replay(cfg Config, path string) int {
 	if err != nil {
 		return 2
 	}
+	tmp, _ := os.MkdirTemp("", "gosym-replay-")
+	defer os.RemoveAll(tmp)
+	genFile := filepath.Join(tmp, "zz_gen.go")
+	load.Generate(cfg.Repo, genFile)
+	ov[filepath.Join(cfg.Repo, "internal/zzverif/zz_gen.go")] = genFile
 	l, err := load.Load(cfg.Repo, ov, nil)
 	if err != nil {
 		fmt.Println("INCONCLUSIVE /repo does not load:", err)
 		return 2
 	}
-	tmp, _ := os.MkdirTemp("", "gosym-replay-")
-	defer os.RemoveAll(tmp)
 	os.MkdirAll(filepath.Join(tmp, "cex"), 0o755)
 	os.WriteFile(filepath.Join(tmp, "cex", "r.json"), b, 0o644)
 	r := &Run{Cfg: cfg, L: l, tmp: tmp}
